@@ -8,6 +8,7 @@ use std::cell::RefCell;
 use std::io::{self, Read};
 use std::mem::MaybeUninit;
 use std::net::{SocketAddr, TcpListener, TcpStream, ToSocketAddrs};
+use std::sync::atomic::{AtomicBool, Ordering};
 use std::sync::Arc;
 
 mod builder;
@@ -336,6 +337,9 @@ fn handle_one_request(
         Err(_) => return Ok(false), // silently drop connection on eof / io-error
     };
 
+    // set by the body reader when the body turns out to be truncated or malformed
+    let body_failed = AtomicBool::new(false);
+
     if let Some(hook) = &config.pre_routing_hook {
         match (hook)(&mut request, response) {
             PreRoutingAction::Proceed => {}
@@ -347,7 +351,8 @@ fn handle_one_request(
         .router
         .match_route(&request.method, request.uri.path());
 
-    let body = BodyReader::from_request(&buf[request.buf_offset..], stream, &request.headers);
+    let body = BodyReader::from_request(&buf[request.buf_offset..], stream, &request.headers)
+        .on_failure(&body_failed);
     let ctx = RequestContext {
         method: request.method,
         headers: request.headers,
@@ -359,7 +364,8 @@ fn handle_one_request(
 
     let client_requested_close = ctx.headers.is_connection_close();
     (matched_route.route)(ctx, response)?;
-    if client_requested_close {
+    if client_requested_close || body_failed.load(Ordering::Relaxed) {
+        // after a truncated / malformed body the start of the next request is unknown
         return Ok(false);
     }
     Ok(response.keep_alive)
